@@ -94,10 +94,14 @@ def _wide(which):
     """Families with 16-bit leaves (region alphabet is applied by the check, not here)."""
     w = L('w', -32768, 32767)
     v = L('v', 0, 32767)
+    if which == '2':
+        # beyond 16 bits: big-M constants above 2^24 (not representable in float32) and above 2^31
+        w = L('w', -20000001, 20000000)
+        v = L('v', 0, 2147483649)
     a = L('a')
     b = L('b')
     out = []
-    if which == '1':
+    if which in ('1', '2'):
         for leafs in ([w], [w, a], [v], [v, a], [w, v]):
             for s in (1, -1):
                 for val in (-3, -1, 0, 1, 2, 4):
